@@ -16,13 +16,13 @@ CLAIMED = {
  "C06": dict(cat="proof", tech="value numbering with constant-loop unrolling -> bit matrix; GF(2) polynomial algebra (Krylov solve, x^(2^k) mod chi)",
    text="The linear map M computed by each of the 24 jump/long_jump bodies is extracted from MIR and proved equal to T^(2^(n/2)) resp. T^(2^(3n/4)) for the step matrix T of the same type: M = p(T) is verified on a Krylov basis and p = x^(2^k) mod chi with chi primitive.",
    note=TB + "; primitivity of chi from C07", ref="4/C06"),
- "C07": dict(cat="proof", tech="bit-matrix extraction by value numbering; rank, Berlekamp-Massey minimal polynomial, primitivity test with certified factorisation of 2^n-1; matrix identity of the other word method with T or T^2 and of fill_bytes at constant lengths with T^k",
+ "C07": dict(cat="proof", tech="bit-matrix extraction by value numbering; rank, Berlekamp-Massey minimal polynomial, primitivity test with certified factorisation of 2^n-1; matrix identity of the other word method with T or T^2 and of fill_bytes at constant lengths with T^k; every other &mut self method: linear bijection commuting with T, no public field, no &mut handed out",
    text="For each of the 15 linear generator types the step is shown GF(2)-linear without constant term, of full rank, with a primitive characteristic polynomial of degree n; this is equivalent to the statement (single cycle of length 2^n-1 on the non-zero states); the state map of the non-native word method is the matrix T resp. T^2, so every stepping operation moves along that cycle; fill_bytes on a destination of each constant length in the tier's range advances the state by T^k, k the number of native steps of C05's word table.",
    note=TB + "; factor table of 2^512-1 re-verified with Pratt certificates on every run", ref="4/C07"),
  "C05": dict(cat="other", tech="value numbering with the projected method kept as an opaque, state-threading call; identity with the projection table; bounded evaluation of every fill_bytes on constant-length destinations (rand_core's helper inlined); in-place evaluation of the word methods for bodies that do not call them",
    text="For each of the 20 generator types the three RngCore methods are value-numbered and compared (normal-form identity of returned value, final state, destination buffer, call count, absence of other effects) with the row of the projection table the property states: which half, which order, how many native calls, which delegate; fill_bytes of the xoshiro family, XorShiftRng and JitterRng is additionally evaluated for every length 0..=17 (thorough 0..=40) and compared byte for byte with the table row.",
    note=TB + "; a hand-written fill_bytes that is not a plain delegation is decided for the listed lengths only; BlockRng's refill behaviour is the dependency's", ref="4/C05"),
- "C08": dict(cat="other", tech="value numbering under path assumptions (zero / non-zero seed), GF(2) rank of the decode, bijection-chain recognition of SplitMix64's output, constant propagation of the zero-seed path, who-constructs query, compile-fail witness",
+ "C08": dict(cat="other", tech="value numbering under path assumptions (zero / non-zero seed), GF(2) rank of the decode, bijection-chain recognition of SplitMix64's output, constant propagation of the zero-seed path, who-constructs query, compile-fail witness; who-may-mutate rule of C07 (R9)",
    text="from_seed of the 14 xoshiro types is shown to be ite(AllZero(whole seed), Self::seed_from_u64(0), bijective LE decode); seed_from_u64 is from_rng on SplitMix64{x}; SplitMix64's output is a bijection of its counter and PHI != 0; the all-zero seed constant-folds to a non-zero state; XorShiftRng maps the zero seed to 0x0BAD5EED x4; generator ADTs are constructed only by the seeding API.",
    note=TB + "; rand_core default from_rng/try_from_rng", ref="4/C08"),
  "C10": dict(cat="other", tech="value numbering of every Clone::clone and PartialEq::eq body on symbolic values; identity with the all-fields conjunction; dependence of BlockRngCore::generate on the old contents of its results buffer (atoms of the post-state)",
@@ -34,10 +34,10 @@ CLAIMED = {
  "C17": dict(cat="other", tech="taint analysis over value-numbered fmt bodies with trait objects followed through compiler-resolved vtables",
    text="For the 8 state-hiding types, every value that reaches a core formatting sink from Debug::fmt (following &dyn Debug into BlockRng's and the cores' own fmt) is collected; its symbol set must be empty (cores, XorShiftRng, JitterRng) or within {index, half_used} (BlockRng wrappers).",
    note=TB + "; core::fmt prints only what it is given", ref="4/C17"),
- "C18": dict(cat="other", tech="differential value numbering across build configurations, operations with data-dependent loops through their loop summaries; cfg-predicate allow-list scan; unsafe allow-list from HIR; float-type scan",
+ "C18": dict(cat="other", tech="differential value numbering across build configurations, operations with data-dependent loops through their loop summaries; cfg-predicate allow-list scan; unsafe allow-list from HIR; float-type scan; scan for pointer-to-integer casts and address-inspecting calls",
    text="Every operation of every generator is value-numbered in each configuration (dev/rel x default/serde/std+log) on identical symbolic inputs and must give identical normal forms; all cfg predicates are in a frozen allow-list; no profile-dependent macro or predicate; unsafe sites equal the reasoned allow-list.",
    note=TB + "; compiler/LLVM correctness; endianness and pointer width outside the configuration set; overflow edges: C14", ref="4/C18"),
- "C19": dict(cat="other", tech="exhaustive enumeration over item tables and the resolved call graph; compiler-computed Freeze; type-level witness crate with compile-fail twins",
+ "C19": dict(cat="other", tech="exhaustive enumeration over item tables and the resolved call graph; compiler-computed Freeze; type-level witness crate with compile-fail twins; scan of reachable bodies for pointer-to-integer casts and address-inspecting calls",
    text="Statics/thread-locals/interior-mutable consts are exactly the frozen set with frozen readers; transitive field types are plain data; no static, FFI, allocation or I/O is reachable from a generator operation; all generator types are Send+Sync+'static (witness crate), with twins that must fail (E0277, E0451).",
    note=TB + "; cargo check of the witness crate against /repo", ref="4/C19"),
  "C12": dict(cat="other", tech="value numbering of each Jitterentropy fragment with timer calls as numbered opaque readings; identity with the reference transcription; loop records (bounds, per-iteration effects, tick depth of the world token)",
@@ -52,16 +52,16 @@ CLAIMED = {
  "C15": dict(cat="proof", tech="who-writes query on JitterRng.data; GF(2) bit-matrix extraction of every pool update by value numbering (constant loops unrolled), the pool followed through loop summaries with pool-independence of every branch / continuation / exit condition, control dependence of loop variables on pool-dependent trip counts; rank",
    text="Each of the pool's writers is shown to map the old pool affinely with a rank-64 matrix (LFSR fold: also rank 64 in the time value; rotation; stir), or to store the value the collection just produced; where the pool is carried through a loop, the per-iteration update is one-to-one and the number of iterations does not depend on the pool.",
    note=TB, ref="4/C15"),
- "C16": dict(cat="other", tech="typestate by value numbering with gen_entropy as an opaque state-threading call; who-writes query; loop record of the rounds loop; bounded evaluation of the type's fill_bytes for constant lengths; exposure analysis over pairs of output calls; bounded sequence model (<= 3 calls, clone) that names only the field `data`",
+ "C16": dict(cat="other", tech="typestate by value numbering with gen_entropy as an opaque state-threading call; who-writes query; loop record of the rounds loop; bounded evaluation of the type's fill_bytes for constant lengths; exposure analysis over pairs of output calls; bounded sequence model (<= 3 calls, clone) that names only the field `data`; impl-table query (not Copy), call-graph query for public operations reaching gen_entropy or reading the pool, composition of set_rounds with the loop trip count",
    text="next_u32/next_u64/clone bookkeeping of the pending half is decided exactly; gen_entropy's rounds loop runs 0..rounds with at least one timer read per round; fill_bytes lengths 1..=12 (24 thorough) are evaluated; no collected bit reaches two output positions over any ordered pair of output calls; 431 call sequences follow the property's model call by call (outputs and number of collections); one known finding (fill_bytes of 1..=4 bytes consumes a pending half by design) is listed in known_findings.json.",
    note=TB, ref="4/C16"),
- "C02": dict(cat="other", tech="value numbering of generate for each of the 64 counter residues (counter = 1024q+16k, q symbolic) and of init on symbolic key/IV words; normal-form identity with the transcription of Wu's specification, look-ups as select terms",
+ "C02": dict(cat="other", tech="value numbering of generate for each of the 64 counter residues (counter = 1024q+16k, q symbolic) and of init on symbolic key/IV words; normal-form identity with the transcription of Wu's specification, look-ups as select terms; who-may-mutate query over every public &mut self method (value numbering with the RngCore surface kept opaque)",
    text="Every 16-word block, from every table state and every residue of the step counter, equals the specification's 16 keystream steps (results, table update, counter); the initial table equals the specification's expansion plus 1024 feedback steps for every key/IV (all 1024 words); from_seed decodes eight LE words.",
    note=TB + "; whole-keystream equality is the induction over blocks (BlockRng hands words out in order: dependency); sums above 48 monomials are canonical only up to association (DESIGN.md section 7)", ref="4/C02"),
- "C03": dict(cat="other", tech="value numbering of generate / init / from_seed / seed_from_u64 of both cores on symbolic state (256-word symbolic memory, data-dependent look-ups as select terms); normal-form identity with the transcription of rand.c / isaac64.c",
+ "C03": dict(cat="other", tech="value numbering of generate / init / from_seed / seed_from_u64 of both cores on symbolic state (256-word symbolic memory, data-dependent look-ups as select terms); normal-form identity with the transcription of rand.c / isaac64.c; who-may-mutate query over every public &mut self method (value numbering with the RngCore surface kept opaque)",
    text="One refill block from an arbitrary symbolic state equals one reference isaac()/isaac64() call in all 256 memory words, a, b, c and all 256 result slots (slot 255-i = i-th word); init equals randinit (constants re-derived from the golden ratio by the reference mixer); from_seed and seed_from_u64 equal randinit(TRUE)/one pass on the documented key layout.",
    note=TB + "; whole-stream equality is the induction over blocks; BlockRng/BlockRng64 order is the dependency's", ref="4/C03"),
- "C09": dict(cat="other", tech="value numbering of the seeding routes with rand_core's default from_rng and fill_bytes_via_next inlined for the constant seed length; identity with from_seed on the reference SplitMix64 byte stream; impl-table queries; sibling comparison of from_rng / try_from_rng; loop records of the redraw loops; whole-route comparison with the reference initialisation when the private helper between route and state has another shape",
+ "C09": dict(cat="other", tech="value numbering of the seeding routes with rand_core's default from_rng and fill_bytes_via_next inlined for the constant seed length; identity with from_seed on the reference SplitMix64 byte stream; impl-table queries; sibling comparison of from_rng / try_from_rng; loop records of the redraw loops; whole-route comparison with the reference initialisation when the private helper between route and state has another shape; name-shadowing query on inherent functions with behavioural comparison against the shadowed trait method",
    text="xoshiro seed_from_u64(x) = from_seed(LE bytes of the reference SplitMix64 stream at x) for all 14 types; non-overriding impls and wrapper delegation are decided from the impl tables and call atoms; ISAAC seed_from_u64 / from_rng / try_from_rng key layout, byte counts, pass counts and error discipline; XorShiftRng redraw loops leave only with a non-zero block (or the source's error).",
    note=TB + "; rand_core's PCG32 seed_from_u64 default is the dependency's", ref="4/C09"),
 }
